@@ -15,7 +15,9 @@ EXTENDS Integers, Sequences, FiniteSets, TLC, VerifIO
 
 CONSTANTS MaxList, EXPORT
 Sizes == {"empty", "short", "max"}
-EpProviders == UNION {[1..n -> [addrs : 0..1, md : {"empty", "short"}]] : n \in 0..MaxList}
+(* self: the entry names the advertisement's own provider (which the IPNI rules allow to leave addresses and metadata out:
+   what it leaves out stays out -- the stored value is the value, whatever a reader may substitute later)                  *)
+EpProviders == UNION {[1..n -> [addrs : 0..1, md : {"empty", "short"}, self : BOOLEAN]] : n \in 0..MaxList}
 Ads == [kind : {"ad"}, prev : BOOLEAN, addrs : 0..MaxList, ctx : Sizes, md : Sizes, rm : BOOLEAN, entries : {"noentries", "link"},
         ext : {"absent"} \cup {"present"}, ov : BOOLEAN, eps : EpProviders]
 WellFormedAd(a) == (a.ext = "absent" => (a.eps = <<>> /\ ~a.ov)) /\ ~(a.rm /\ a.ext = "present" /\ a.ov)
